@@ -9,15 +9,31 @@ CASE_TYPE = 'c10_case'
 CHECK = 'c10_check'
 SHOW = 'c10_show'
 SHARD = 200
-RULE = ('case = (relation matrix on <= 8 carriers, two element lists with controlled overlap, cache flag '
-        'per operand, a warm-up history per operand, operator in & | ^ -); compared: element list of the '
-        'result (ordered), every query on the result, deep equality of both operands before/after; '
+RULE = ('case = (relation matrix on <= 8 carriers, two element lists with controlled overlap incl. prefix / '
+        'sub-list shapes, cache flag per operand, a warm-up history per operand with queries AND mutations '
+        '(add with/without cache filling, delete/remove + re-add), operator in & | ^ -); compared: element '
+        'list of the result (ordered), every query on the result, on the same operation evaluated a second '
+        'time and on the operation with exchanged operands, every query on BOTH operands afterwards, deep '
+        'equality of both operands before/after; '
         'non-trivial = both operands non-empty, they overlap without being equal, and at least one '
         'operand has a non-empty relation cache')
 EXHAUSTIVE = {'thorough': 'all pairs of non-empty operands with <= 3 elements (sub-lists of the carrier '
                           'order) over the 4-element universes {{},{0},{1},{0,1}} and the 4-chain, x the '
-                          'four operators x every warm-up of at most one relation query per operand, cache on'}
+                          'four operators x every warm-up of at most one relation query per operand, cache on; '
+                          'plus all cases where the second operand is a prefix of the first (2-3 carriers, both '
+                          'universes) whose last elements were inserted by add() with/without cache filling, x at '
+                          'most one closed-relation query per operand x four operators'}
 OPS = {'&': 'OpAnd', '|': 'OpOr', '^': 'OpXor', '-': 'OpSub'}
+
+
+def _apply(A, B, op):
+    if op == '&':
+        return A & B
+    if op == '|':
+        return A | B
+    if op == '^':
+        return A ^ B
+    return A - B
 
 
 def run_impl(case):
@@ -32,39 +48,43 @@ def run_impl(case):
         for o in case['warm_b']:
             PL.apply_op(B, o, leq, POSet)
         before = (PL.snapshot(A), PL.snapshot(B))
-        try:
-            if case['op'] == '&':
-                R = A & B
-            elif case['op'] == '|':
-                R = A | B
-            elif case['op'] == '^':
-                R = A ^ B
-            else:
-                R = A - B
-        except Exception as e:  # noqa
-            return [PL.out_term(PL._x(e)), (PL.snapshot(A), PL.snapshot(B)) == before, '[]']
-        res = ['e', [int(x) for x in R.elements]]
+
+        def answers(f):
+            try:
+                R = f()
+            except Exception as e:  # noqa
+                return PL.out_term(PL._x(e)), PL.outs_term([PL._x(e)])
+            return (PL.out_term(['e', [int(x) for x in R.elements]]),
+                    PL.outs_term(PL.run_final(R, leq, POSet)))
+        # the operation, the same operation again, the operation with the operands exchanged:
+        # an operand corrupted in place by the first shows in the later ones
+        res, fin = answers(lambda: _apply(A, B, case['op']))
+        _, fin2 = answers(lambda: _apply(A, B, case['op']))
+        _, fin_rev = answers(lambda: _apply(B, A, case['op']))
         unchanged = (PL.snapshot(A), PL.snapshot(B)) == before
-        fin = PL.run_final(R, leq, POSet)
-        unchanged = unchanged and (PL.snapshot(A), PL.snapshot(B)) == before
-        return [PL.out_term(res), unchanged, PL.outs_term(fin)]     # compact strings (Coq terms)
-    r = guarded(go, timeout_s=20)
+        # every query on both operands afterwards (compact strings = Coq terms)
+        after_a = PL.outs_term(PL.run_final(A, leq, POSet))
+        after_b = PL.outs_term(PL.run_final(B, leq, POSet))
+        return [res, unchanged, fin, fin2, fin_rev, after_a, after_b]
+    r = guarded(go, timeout_s=30)
     return list(r)
 
 
 def to_coq(case, out):
     if out[0] == 'ok':
-        res, unchanged, fin = out[1]
+        res, unchanged, fin, fin2, fin_rev, after_a, after_b = out[1]
     else:
-        res, unchanged, fin = PL.out_term(['x', PL.ERR_KINDS.get(out[1], 11)]), True, '[]'
-    return 'Build_c10_case %s %s %s %s %s %s %s %s %s %s %s' % (
+        res, unchanged = PL.out_term(['x', PL.ERR_KINDS.get(out[1], 11)]), True
+        fin = fin2 = fin_rev = after_a = after_b = '[]'
+    return 'Build_c10_case %s %s %s %s %s %s %s %s %s %s %s %s %s %s %s' % (
         coq(case['matrix']), coq(list(case['a'])), coq(list(case['b'])), PL.b(case['cache_a']),
         PL.b(case['cache_b']), PL.ops_term(case['warm_a']), PL.ops_term(case['warm_b']), OPS[case['op']],
-        res, PL.b(bool(unchanged)), fin)
+        res, PL.b(bool(unchanged)), fin, fin2, fin_rev, after_a, after_b)
 
 
 # ------------------------------------------------------------------ generation
 def warmup(rng, els, k_all, heavy):
+    """Query-only warm-up (partial caches)."""
     n = len(els)
     if n == 0 or rng.random() < 0.15:
         return []
@@ -85,11 +105,37 @@ def warmup(rng, els, k_all, heavy):
     return ops
 
 
+def grow(rng, target, k_all, fill_weight=0.8):
+    """(initial list, warm-up) such that the operand ENDS with the element list `target`: the last
+    elements are inserted by add() (which stores plain mutable sets in the caches), possibly after
+    a delete/remove + re-add, with queries in between."""
+    n = len(target)
+    j = rng.randint(0, n) if n else 0                 # target[j:] are added one at a time
+    init = list(target[:j])
+    ops, cur = [], list(init)
+    if cur and rng.random() < 0.3:                     # delete / remove the last one, add it again
+        e = cur[-1]
+        ops.append(['del', len(cur) - 1] if rng.random() < 0.5 else ['rm', e])
+        cur = cur[:-1]
+        j -= 1
+    for e in target[j:]:
+        if cur and rng.random() < 0.5:
+            ops += PL.random_queries(rng, len(cur), cur, k_all)[:2]
+        ops.append(['add', e, rng.random() < fill_weight])
+        cur.append(e)
+    if cur and rng.random() < 0.6:
+        ops += [q for q in PL.random_queries(rng, len(cur), cur, k_all) if q[0] != 'eq'][:2]
+    ops = [o for o in ops if o[0] != 'eq']
+    assert cur == list(target)
+    return init, ops
+
+
 def operands(rng, k):
-    """Two element lists over carriers 0..k-1 with a controlled overlap."""
+    """Two FINAL element lists over carriers 0..k-1 with a controlled overlap."""
     allc = list(range(k))
     rng.shuffle(allc)
-    mode = rng.choice(['disjoint', 'nested', 'equal', 'middle', 'random', 'random', 'empty'])
+    mode = rng.choice(['disjoint', 'nested', 'equal', 'middle', 'random', 'random', 'empty',
+                       'prefix', 'prefix', 'sublist'])
     if mode == 'disjoint':
         cut = rng.randint(0, k)
         a, b = allc[:cut], allc[cut:]
@@ -114,6 +160,16 @@ def operands(rng, k):
         b = []
         if rng.random() < 0.5:
             a, b = b, a
+    elif mode == 'prefix':                      # one list is a prefix of the other: indexes preserved
+        a = allc[:rng.randint(1, k)]
+        b = a[:rng.randint(0, len(a))]
+        if rng.random() < 0.5:
+            a, b = b, a
+    elif mode == 'sublist':                     # same relative order, indexes shifted
+        a = allc[:rng.randint(1, k)]
+        b = [x for x in a if rng.random() < 0.6]
+        if rng.random() < 0.5:
+            a, b = b, a
     else:
         a = rng.sample(allc, rng.randint(0, k))
         b = rng.sample(allc, rng.randint(0, k))
@@ -123,14 +179,32 @@ def operands(rng, k):
 def random_case(rng, heavy):
     m, kind = PL.random_order(rng)
     k = len(m)
-    a, b, mode = operands(rng, k)
+    fa, fb, mode = operands(rng, k)
     r = rng.random()
     ca, cb = (True, True) if r < 0.86 else ((False, False) if r < 0.94 else
                                             ((True, False) if r < 0.97 else (False, True)))
-    return {'matrix': m, 'a': a, 'b': b, 'cache_a': ca, 'cache_b': cb,
-            'warm_a': warmup(rng, a, k, heavy) if ca or rng.random() < 0.3 else [],
-            'warm_b': warmup(rng, b, k, heavy) if cb or rng.random() < 0.3 else [],
-            'op': rng.choice('&|^-'), 'kind': kind, 'overlap': mode}
+    out = {}
+    for key, target, flag in (('a', fa, ca), ('b', fb, cb)):
+        style = rng.random()
+        if mode == 'prefix' and len(target) <= min(len(fa), len(fb)) and flag:
+            style = style * 0.55                 # the prefix operand is (almost always) grown by add()
+        if style < 0.45:                         # grown by add / delete + re-add, then queried
+            init, w = grow(rng, target, k)
+        elif style < 0.60:                       # a general history; the final list is whatever results
+            init = list(target)
+            w = [o for o in PL.random_history(rng, init, k, rng.randint(2, 8), flag) if o[0] != 'eq']
+        else:
+            init = list(target)
+            w = warmup(rng, init, k, heavy) if flag or rng.random() < 0.3 else []
+        out[key], out['warm_' + key] = init, w
+    if mode in ('prefix', 'sublist', 'equal', 'nested', 'middle'):
+        # make both operands hold entries for the same elements: one of them caches whole relations
+        for key, flag in (('a', ca), ('b', cb)):
+            if flag and rng.random() < (0.6 if mode == 'prefix' else 0.3):
+                out['warm_' + key] = out['warm_' + key] + [['fill', rng.choice([1, 1, 2, 2, 5])]]
+    out.update({'matrix': m, 'cache_a': ca, 'cache_b': cb, 'op': rng.choice('&|^-'),
+                'kind': kind, 'overlap': mode})
+    return out
 
 
 U4 = PL.closure(4, [(0, 1), (0, 2), (1, 3), (2, 3)])
@@ -156,42 +230,94 @@ def exhaustive_cases():
                                    'warm_a': wa, 'warm_b': wb, 'op': op, 'kind': kind, 'overlap': 'exhaustive'}
 
 
+def grown_prefix_cases():
+    """B ends as a prefix of A and its last elements were inserted by add() (plain mutable sets in
+    B's caches): all lists A of 2-3 distinct carriers of both universes, all prefixes and split
+    points, cache filling on/off, all operators, at most one closed-relation query on each operand
+    (so that both may hold an entry for the same element).  b ⊙ a is evaluated by run_impl anyway."""
+    for m, kind in ((U4, 'exh-U4'), (C4, 'exh-C4')):
+        for r in (2, 3):
+            for a in itertools.permutations(range(4), r):
+                a = list(a)
+                qas = [[]] + [[['cl', up, i]] for i in range(len(a)) for up in (False, True)]
+                for p in range(1, len(a) + 1):
+                    target = a[:p]
+                    qbs = [[], [['cl', False, p - 1]], [['cl', True, p - 1]]]
+                    for j in range(0, p):
+                        for fill in (True, False):
+                            grow_ops = [['add', e, fill] for e in target[j:]]
+                            for qa in qas:
+                                for qb in qbs:
+                                    for op in '&|^-':
+                                        yield {'matrix': m, 'a': a, 'b': target[:j], 'cache_a': True,
+                                               'cache_b': True, 'warm_a': qa, 'warm_b': grow_ops + qb,
+                                               'op': op, 'kind': kind, 'overlap': 'exhaustive-grown-prefix'}
+
+
 def generate(rng, tier):
     cases = []
     if tier == 'thorough':
         cases += list(exhaustive_cases())
+        cases += list(grown_prefix_cases())
         n_rand = 40000
     else:
         ex = list(exhaustive_cases())
-        cases += rng.sample(ex, 1200)
-        n_rand = 3000
+        cases += rng.sample(ex, 700)
+        gp = list(grown_prefix_cases())
+        cases += rng.sample(gp, 300)
+        cases += rng.sample([c for c in gp if c['warm_a'] and c['warm_b'][0][2]], 500)
+        n_rand = 2200
     for _ in range(n_rand):
         cases.append(random_case(rng, heavy=(tier == 'thorough' and rng.random() < 0.3)))
     return cases
 
 
 # ------------------------------------------------------------------ evidence
+def _final_lists(case):
+    out = []
+    for key in ('a', 'b'):
+        cur = list(case[key])
+        for o in case['warm_' + key]:
+            if o[0] == 'add' and o[1] not in cur:
+                cur.append(o[1])
+            elif o[0] == 'del' and o[1] < len(cur):
+                cur.pop(o[1])
+            elif o[0] == 'rm' and o[1] in cur:
+                cur.remove(o[1])
+        out.append(cur)
+    return out
+
+
 def nontrivial(case):
-    a, b = set(case['a']), set(case['b'])
-    warmed = (case['cache_a'] and any(o[0] in ('cv', 'cl', 'ex', 'fill') for o in case['warm_a'])) or \
-             (case['cache_b'] and any(o[0] in ('cv', 'cl', 'ex', 'fill') for o in case['warm_b']))
+    fa, fb = _final_lists(case)
+    a, b = set(fa), set(fb)
+    kinds = ('cv', 'cl', 'ex', 'fill', 'add', 'bd')
+    warmed = (case['cache_a'] and any(o[0] in kinds for o in case['warm_a'])) or \
+             (case['cache_b'] and any(o[0] in kinds for o in case['warm_b']))
     return bool(a) and bool(b) and bool(a & b) and a != b and warmed
 
 
 def stats(case):
+    fa, fb = _final_lists(case)
+    w = case['warm_a'] + case['warm_b']
+    pref = (fa[:len(fb)] == fb or fb[:len(fa)] == fa) and bool(fa) and bool(fb)
     return {'order': case.get('kind', ''), 'overlap': case.get('overlap', ''), 'op': case['op'],
             'cache': '%s/%s' % (case['cache_a'], case['cache_b']),
-            'size_a': len(case['a']), 'size_b': len(case['b']),
-            'warm': min(len(case['warm_a']) + len(case['warm_b']), 6)}
+            'size_a': len(fa), 'size_b': len(fb), 'warm': min(len(w), 8),
+            'warm_adds_fill': min(sum(1 for o in w if o[0] == 'add' and o[2]), 4),
+            'warm_adds_nofill': min(sum(1 for o in w if o[0] == 'add' and not o[2]), 4),
+            'warm_deletes': min(sum(1 for o in w if o[0] in ('del', 'rm')), 4),
+            'final_lists_prefix': pref}
 
 
 def shrink(case):
     out = []
-    for key in ('warm_a', 'warm_b'):
+    for key, ekey in (('warm_a', 'a'), ('warm_b', 'b')):
         for i in range(len(case[key])):
             c = dict(case)
             c[key] = case[key][:i] + case[key][i + 1:]
-            out.append(c)
+            if PL.history_valid(c[ekey], c[key], len(c['matrix'])):
+                out.append(c)
     for key, wkey in (('a', 'warm_a'), ('b', 'warm_b')):
         for i in range(len(case[key])):
             c = dict(case)
